@@ -1253,7 +1253,17 @@ func (p *parser) parseBlock(block text.BlockReader, parent ast.Node, pc Context)
 		if lineBreakFlags&(lineBreakHard|lineBreakVisible) == lineBreakHard|lineBreakVisible {
 			text = ast.NewTextSegment(diff)
 		} else {
-			text = ast.NewTextSegment(diff.TrimRightSpace(source))
+			trimmed := diff.TrimRightSpace(source)
+			if trimmed.IsEmpty() {
+				// Everything since the last flush is whitespace, so spaces
+				// flushed earlier (an inline parser was consulted at a space
+				// and declined) are trailing spaces of this line as well.
+				if last, ok := parent.LastChild().(*ast.Text); ok && last.Segment.Stop == diff.Start &&
+					!last.IsRaw() && !last.SoftLineBreak() && !last.HardLineBreak() {
+					last.Segment = last.Segment.TrimRightSpace(source)
+				}
+			}
+			text = ast.NewTextSegment(trimmed)
 		}
 		text.SetSoftLineBreak(lineBreakFlags&lineBreakSoft != 0)
 		text.SetHardLineBreak(lineBreakFlags&lineBreakHard != 0)
